@@ -269,6 +269,58 @@ func c17DumpFile(path string, limit int) (c *c17Calls) {
 				return renderValue(v), nil
 			})
 			_ = dims
+			// a strided / blocked hyperslab (ReadHyperslab): every second index of every dimension, blocks of one
+			c17Call(c, "hyperslab:"+p, func() (string, error) {
+				hdr, err := core.ReadObjectHeader(f.Reader(), o.Address(), f.Superblock())
+				if err != nil {
+					return "", err
+				}
+				info, err := core.ReadDatasetInfo(hdr, f.Superblock())
+				if err != nil {
+					return "", err
+				}
+				d := info.Dataspace.Dimensions
+				if len(d) == 0 {
+					return "scalar", nil
+				}
+				sel := &hdf5.HyperslabSelection{Start: make([]uint64, len(d)), Count: make([]uint64, len(d)), Stride: make([]uint64, len(d))}
+				for i, x := range d {
+					sel.Stride[i] = 2
+					sel.Count[i] = (x + 1) / 2
+					if sel.Count[i] == 0 {
+						sel.Count[i] = 1
+					}
+					if sel.Count[i] > 24 {
+						sel.Count[i] = 24
+					}
+				}
+				v, err := o.ReadHyperslab(sel)
+				if err != nil {
+					return "", err
+				}
+				return renderValue(v), nil
+			})
+			// ChunkIterator: the coordinates and the data of every chunk (at most 64 chunks); the first error ends it
+			c17Call(c, "chunkiter:"+p, func() (string, error) {
+				it, err := o.ChunkIterator()
+				if err != nil {
+					return "", err
+				}
+				h := sha1.New()
+				n := 0
+				for it.Next() && n < 64 {
+					v, err := it.Chunk()
+					if err != nil {
+						return "", err
+					}
+					fmt.Fprintf(h, "%v=%s;", it.ChunkCoords(), renderValue(v))
+					n++
+				}
+				if err := it.Err(); err != nil {
+					return "", err
+				}
+				return fmt.Sprintf("total=%d n=%d cd=%v dims=%v sha=%x", it.Total(), n, it.ChunkDims(), it.DatasetDims(), h.Sum(nil)), nil
+			})
 			c17Call(c, "read:"+p, func() (string, error) {
 				vals, err := o.Read()
 				if err != nil {
